@@ -38,13 +38,15 @@ pub fn mix_for(prop: u32) -> Mix {
 /// (quick, thorough) number of runs
 pub fn runs_for(prop: u32) -> (u64, u64) {
     match prop {
-        4 => (60_000, 1_500_000),
-        5 | 6 | 7 => (12_000, 300_000),
-        9 => (60_000, 1_500_000),
-        13 => (8_000, 200_000),
-        15 => (6_000, 150_000),
-        19 => (6_000, 150_000),
-        3 => (12_000, 300_000),
+        1 | 2 => (40_000, 1_000_000),
+        3 => (24_000, 600_000),
+        4 => (240_000, 6_000_000),
+        5 | 6 => (100_000, 2_500_000),
+        7 => (50_000, 1_200_000),
+        9 => (120_000, 3_000_000),
+        13 => (20_000, 400_000),
+        15 => (20_000, 400_000),
+        19 => (12_000, 300_000),
         _ => (20_000, 500_000),
     }
 }
